@@ -51,6 +51,14 @@ OPS = {
     "clone": lambda x: x.clone(),
     "index0": lambda x: x[0:1] * 1,
     "bitand": lambda x: x & 1,
+    # slicing along every dimension, addressed by positive and by negative indices, through the python and the aten entry points
+    "narrow_last": lambda x: x.narrow(-1, 0, max(1, x.shape[-1] // 2)) * 1,
+    "narrow_first_neg": lambda x: x.narrow(-x.ndim, x.shape[0] // 2, x.shape[0] - x.shape[0] // 2) * 1,
+    "aten_slice_neg": lambda x: torch.ops.aten.slice(x, -1, 1, x.shape[-1]) * 1,
+    "aten_slice_first": lambda x: torch.ops.aten.slice(x, 0, 1, x.shape[0]) * 1,
+    "slice_last": lambda x: x[..., 1:] * 1,
+    "select_neg": lambda x: x.select(-1, x.shape[-1] - 1) * 1,
+    "flip_last": lambda x: torch.flip(x, dims=[-1]),
 }
 
 
